@@ -85,11 +85,12 @@ BucketId(p) == FoldLeft(LAMBDA acc, x : acc * 16 + x, 0, p)
 \* is not served contributes [0, 0]
 RECURSIVE UpNode(_, _, _, _)
 UpNode(S, p0, cf, served) ==
-  Let1(p0, LAMBDA p :
-    IF Len(p) >= cf.depth
-      THEN (IF BucketId(p) \in served THEN Node(S, p, cf) ELSE Zero)
-      ELSE Let1(KidsBy(p, LAMBDA q : UpNode(S, q, cf, served)),
-                LAMBDA kids : [count |-> KidsCount(kids), hash |-> KidsHash(kids, TRUE)]))
+  Let1(p0, LAMBDA p : Let1(Live(Under(S, p)), LAMBDA U :
+    IF U = {} THEN Zero                       \* nothing live below: [0, 0] whatever is served
+    ELSE IF Len(p) >= cf.depth
+      THEN (IF BucketId(p) \in served THEN Node(U, p, cf) ELSE Zero)
+      ELSE Let1(KidsBy(p, LAMBDA q : UpNode(U, q, cf, served)),
+                LAMBDA kids : [count |-> KidsCount(kids), hash |-> KidsHash(kids, TRUE)])))
 
 \* `get @prefix` with Len(prefix) < depth : 16 lines "i/ hash count"
 UpperListing(S, prefix, cf, served) == KidsBy(prefix, LAMBDA q : UpNode(S, q, cf, served))
@@ -113,6 +114,8 @@ MCAlphaSeq == SetToSortSeq(MCAlpha, <)
 MCHi    == {<<0, 0, 0, 1>>, <<15, 15, 15, 15>>}
 MCKeys  == {<<a, b, 0, 0>> \o h \o <<0, 0, 0, 0, 0, 0, 0, 1>> : a \in MCAlpha, b \in MCAlpha, h \in MCHi}
                               \* digits 1,2 place the key in the tree; digits 5..8 are Hi16
+MCKeys8 == {<<a, b, 0, 0>> \o h \o <<0, 0, 0, 0, 0, 0, 0, 1>> : a \in MCAlpha, b \in MCAlpha, h \in MCHi}
+MCKeysQ == {<<a, 0, 0, 0>> \o h \o <<0, 0, 0, 0, 0, 0, 0, 1>> : a \in MCAlpha, h \in MCHi}   \* 2 leaves x 2 keys
 MCVh    == {1, 40503, 65535}
 MCVer   == {-1, 1, 2}
 MCConf  == [depth |-> 0, height |-> 3, listTh |-> 2, bigTh |-> 2]
